@@ -1,6 +1,7 @@
 package main
 
 import (
+	"strings"
 	"fmt"
 	"math"
 
@@ -99,6 +100,10 @@ func c20Case(r *obs.Run, i int) {
 		c20Conversions(r)
 		return
 	}
+	if i%400 == 250 {
+		c20AtTheLimit(r)
+		return
+	}
 	rng := r.Rng
 	v0 := r.NViolations()
 	h := &c20hist{}
@@ -124,6 +129,7 @@ func c20Case(r *obs.Run, i int) {
 		if rng.Intn(3) == 0 {
 			depth = 996
 		}
+
 		r.Count("deep_chains", 1)
 	}
 	pm := func() feat.Orientation {
@@ -282,6 +288,9 @@ func c20Case(r *obs.Run, i int) {
 		}
 		// relative to a random ancestor
 		j := rng.Intn(len(feats)) // feats[j] is the reference; levels j+1.. are summed
+		if deep && rng.Intn(2) == 0 {
+			j = rng.Intn(3) // near the root: the walk is as long as the chain allows
+		}
 		wantPos := p + e.Start()
 		wantOri := feat.Forward // exon itself is Forward
 		for lv := j + 1; lv < len(feats); lv++ {
@@ -322,6 +331,18 @@ func c20Case(r *obs.Run, i int) {
 			}
 			if u5.Location() != feat.Feature(ct) || cds.Location() != feat.Feature(ct) || u3.Location() != feat.Feature(ct) {
 				fail("utr-tiling", when+": UTR/CDS not located on the transcript")
+			}
+			// the three parts lie on the transcript in its own direction: one more level of the same composition
+			for name, part := range map[string]feat.Feature{"UTR5": u5, "CDS": cds, "UTR3": u3} {
+				if got := feat.OrientationWithin(part, ct); got != feat.Forward {
+					fail("orientation-compose", fmt.Sprintf("%s: OrientationWithin(%s, transcript)=%d want %d", when, name, got, feat.Forward))
+				}
+				if bo, bref := feat.BaseOrientationOf(part); bo != prod || bref != feats[stop] {
+					fail("orientation-compose", fmt.Sprintf("%s: BaseOrientationOf(%s)=%d want %d (the transcript's)", when, name, bo, prod))
+				}
+				if bp, _ := feat.BasePositionOf(part, 0); bp != part.Start()+sum-p-e.Start() {
+					fail("position-compose", fmt.Sprintf("%s: BasePositionOf(%s, 0)=%d want %d", when, name, bp, part.Start()+sum-p-e.Start()))
+				}
 			}
 		}
 	}
@@ -511,6 +532,97 @@ func c20Case(r *obs.Run, i int) {
 	if r.WantSample() && !deep && len(h.Ops) <= 5 {
 		r.Sample(h)
 	}
+}
+
+// c20AtTheLimit: a chain in which the exon lies exactly 1000 links below the chromosome. The five walkers say they
+// panic for chains "deeper than 1000 links", so each of them has to answer here; each is called under its own recover.
+func c20AtTheLimit(r *obs.Run) {
+	rng := r.Rng
+	chr := &c20chrom{"chr", rng.Intn(50), 1 << 40}
+	var loc feat.Feature = chr
+	sum := chr.start
+	prod := feat.Forward
+	pm := func() feat.Orientation {
+		if rng.Intn(2) == 0 {
+			return feat.Reverse
+		}
+		return feat.Forward
+	}
+	var first feat.Feature // the region just below the chromosome
+	for d := 0; d < 997; d++ {
+		n := &c20node{fmt.Sprint("region", d), rng.Intn(20) - 5, 1 << 30, pm(), loc}
+		if d == 0 {
+			first = n
+		}
+		loc = n
+		sum += n.start
+		prod *= n.ori
+	}
+	g := &gene.Gene{ID: "g", Chrom: loc, Offset: rng.Intn(50), Orient: pm()}
+	t := &gene.NonCodingTranscript{ID: "t", Loc: g, Offset: rng.Intn(30), Orient: pm()}
+	other := &gene.NonCodingTranscript{ID: "other", Loc: g, Offset: 0, Orient: feat.Forward}
+	if err := t.SetExons(gene.Exon{Transcript: t, Offset: 0, Length: 10}, gene.Exon{Transcript: t, Offset: 20, Length: 7}); err != nil {
+		r.Inconclusive("harness: SetExons: " + err.Error())
+		return
+	}
+	e := t.Exons()[1]
+	sum += g.Offset + t.Offset + e.Start()
+	prod *= g.Orient * t.Orient
+	w := map[string]interface{}{"links_from_exon_to_chromosome": 1000}
+	try := func(name, class string, f func() string) {
+		defer func() {
+			if p := recover(); p != nil {
+				class := "panic"
+				if fmt.Sprint(p) == "feat: feature chain too long" && (strings.HasPrefix(name, "BasePositionOf") || strings.HasPrefix(name, "PositionWithin") || strings.HasSuffix(name, "unrelated feature)")) {
+					class = "walk-gives-up-at-exactly-1000-links" // listed in known_findings.txt for these three walks only
+				}
+				r.Violate(class, fmt.Sprintf("exon exactly 1000 links below the chromosome: %s panicked: %v", name, p), w)
+			}
+		}()
+		if bad := f(); bad != "" {
+			r.Violate(class, "exon exactly 1000 links below the chromosome: "+name+": "+bad, w)
+		}
+	}
+	p := rng.Intn(7)
+	try("BasePositionOf(exon)", "position-compose", func() string {
+		if bp, ref := feat.BasePositionOf(e, p); bp != sum+p || ref != feat.Feature(chr) {
+			return fmt.Sprintf("%d, want %d", bp, sum+p)
+		}
+		return ""
+	})
+	try("PositionWithin(exon, chromosome)", "position-compose", func() string {
+		if got, ok := feat.PositionWithin(e, chr, p); !ok || got != sum+p-chr.start {
+			return fmt.Sprintf("%d,%v want %d", got, ok, sum+p-chr.start)
+		}
+		return ""
+	})
+	try("BaseOrientationOf(exon)", "orientation-compose", func() string {
+		if bo, ref := feat.BaseOrientationOf(e); bo != prod || ref != feat.Feature(chr) {
+			return fmt.Sprintf("%d, want %d", bo, prod)
+		}
+		return ""
+	})
+	try("OrientationWithin(exon, chromosome)", "orientation-compose", func() string {
+		if got := feat.OrientationWithin(e, chr); got != prod {
+			return fmt.Sprintf("%d, want %d", got, prod)
+		}
+		return ""
+	})
+	try("OrientationWithin(exon, region below the chromosome)", "orientation-compose", func() string {
+		want := prod * first.(*c20node).ori // the region's own orientation is not part of the product
+		if got := feat.OrientationWithin(e, first); got != want {
+			return fmt.Sprintf("%d, want %d", got, want)
+		}
+		return ""
+	})
+	try("OrientationWithin(exon, an unrelated feature)", "orientation-compose", func() string {
+		if got := feat.OrientationWithin(e, other); got != feat.NotOriented {
+			return fmt.Sprintf("%d, want NotOriented", got)
+		}
+		return ""
+	})
+	r.Count("chains_of_exactly_1000_links", 1)
+	r.Note(fmt.Sprintf("limit/%d/%d", sum, prod), true)
 }
 
 func c20Conversions(r *obs.Run) {
